@@ -105,6 +105,10 @@ func derefLocal(v ssa.Value) ssa.Value {
 			}
 		case *ssa.UnOp:
 			if x.Op == token.MUL {
+				if st := fieldStored(x); st != nil {
+					v = st
+					continue
+				}
 				if al, ok := x.X.(*ssa.Alloc); ok {
 					var stored ssa.Value
 					n := 0
@@ -155,9 +159,84 @@ func derefLocal(v ssa.Value) ssa.Value {
 	}
 }
 
+// varRoot: the local variable a load reads (directly, or through the free variable of a function literal bound to it).
+func varRoot(v ssa.Value) *ssa.Alloc {
+	v = stripIface(v)
+	for {
+		if sl, ok := v.(*ssa.Slice); ok && sl.Low == nil && sl.High == nil {
+			v = sl.X
+			continue
+		}
+		break
+	}
+	ld, ok := v.(*ssa.UnOp)
+	if !ok || ld.Op != token.MUL {
+		return nil
+	}
+	if al, ok := ld.X.(*ssa.Alloc); ok {
+		return al
+	}
+	if fv, ok := ld.X.(*ssa.FreeVar); ok {
+		lit := fv.Parent()
+		if lit == nil || lit.Parent() == nil {
+			return nil
+		}
+		for i, f2 := range lit.FreeVars {
+			if f2 != fv {
+				continue
+			}
+			for _, b := range lit.Parent().Blocks {
+				for _, in := range b.Instrs {
+					if mc, ok := in.(*ssa.MakeClosure); ok && mc.Fn == ssa.Value(lit) && i < len(mc.Bindings) {
+						if al, ok := mc.Bindings[i].(*ssa.Alloc); ok {
+							return al
+						}
+					}
+				}
+			}
+		}
+	}
+	return nil
+}
+
+// fieldStored: v loads a struct field that the same function assigned exactly once, in a block dominating the load:
+// the assigned value.
+func fieldStored(v ssa.Value) ssa.Value {
+	ld, ok := v.(*ssa.UnOp)
+	if !ok || ld.Op != token.MUL {
+		return nil
+	}
+	fa, ok := ld.X.(*ssa.FieldAddr)
+	if !ok || ld.Parent() == nil {
+		return nil
+	}
+	want := canon(fa)
+	var stored ssa.Value
+	n := 0
+	for _, b := range ld.Parent().Blocks {
+		for _, in := range b.Instrs {
+			if st, ok := in.(*ssa.Store); ok {
+				if fa2, ok := st.Addr.(*ssa.FieldAddr); ok && fa2.Field == fa.Field && canon(fa2) == want {
+					n++
+					if b.Dominates(ld.Block()) {
+						stored = st.Val
+					}
+				}
+			}
+		}
+	}
+	if n == 1 {
+		return stored
+	}
+	return nil
+}
+
 // sameSeq: a and b denote the same sequence value.
 func sameSeq(a, b ssa.Value) bool {
 	if a == b || canon(a) == canon(b) {
+		return true
+	}
+	if ra, rb := varRoot(a), varRoot(b); ra != nil && ra == rb {
 		return true
 	}
 	da, db := derefLocal(a), derefLocal(b)
@@ -325,8 +404,16 @@ func lenAtLeast(base, N ssa.Value, conds []core.CondEdge, measured string) bool 
 		return true
 	}
 	b := derefLocal(base)
-	if mk, ok := b.(*ssa.MakeSlice); ok && equivLen(mk.Len, N) {
-		return true
+	if mk, ok := b.(*ssa.MakeSlice); ok {
+		if equivLen(mk.Len, N) {
+			return true
+		}
+		// make([]T, len(a)+len(b)) is at least as long as either
+		if sum, ok := mk.Len.(*ssa.BinOp); ok && sum.Op == token.ADD {
+			if (equivLen(sum.X, N) && intLB(sum.Y, map[ssa.Value]bool{}, 0) >= 0) || (equivLen(sum.Y, N) && intLB(sum.X, map[ssa.Value]bool{}, 0) >= 0) {
+				return true
+			}
+		}
 	}
 	if ph, ok := b.(*ssa.Phi); ok {
 		all := len(ph.Edges) > 0
@@ -629,6 +716,52 @@ func inRange(s varIdxSite, idx ssa.Value, ctx *idxCtx, depth int) (string, strin
 				}
 			}
 		case token.ADD:
+			// second half of a slice made for two sequences: len(a) + i with i < len(b) and base = make(len(a)+len(b))
+			if mk, ok := derefLocal(base).(*ssa.MakeSlice); ok && s.measured == "" {
+				if sum, ok := mk.Len.(*ssa.BinOp); ok && sum.Op == token.ADD {
+					for _, pr := range [][2]ssa.Value{{bo.X, bo.Y}, {bo.Y, bo.X}} {
+						off, i := pr[0], pr[1]
+						for _, ps := range [][2]ssa.Value{{sum.X, sum.Y}, {sum.Y, sum.X}} {
+							if !equivLen(off, ps[0]) {
+								continue
+							}
+							c2 := &idxCtx{conds: ctx.conds, aliases: []ssa.Value{i}}
+							for _, cm := range c2.cmps() {
+								if cm.op == token.LSS && equivLen(cm.other, ps[1]) && intLB(i, map[ssa.Value]bool{}, 0) >= 0 {
+									lb = max(lb, 0)
+									setBelow("len(a) + i with i < len(b), in a slice made with len(a) + len(b)")
+								}
+							}
+						}
+					}
+				}
+			}
+			// position after a separator that was found: strings.Index(base, sep) + k with k <= len(sep)
+			for _, pr := range [][2]ssa.Value{{bo.X, bo.Y}, {bo.Y, bo.X}} {
+				call, isCall := pr[0].(*ssa.Call)
+				k, isC := core.ConstInt(pr[1])
+				if !isCall || !isC || k < 0 {
+					continue
+				}
+				o := core.CalleeObj(&call.Call)
+				if o == nil || (core.ObjName(o) != "strings.Index" && core.ObjName(o) != "strings.LastIndex") || !sameSeq(call.Call.Args[0], base) {
+					continue
+				}
+				sep, isS := core.ConstString(call.Call.Args[1])
+				if !isS || int64(len(sep)) < k {
+					continue
+				}
+				c2 := &idxCtx{conds: ctx.conds, aliases: []ssa.Value{call}}
+				for _, cm := range c2.cmps() {
+					if kk, ok := core.ConstInt(cm.other); ok && ((cm.op == token.GTR && kk >= -1) || (cm.op == token.GEQ && kk >= 0) || (cm.op == token.NEQ && kk == -1)) {
+						lb = max(lb, 0)
+						atMost = true
+						if why == "" {
+							why = "just after a separator that strings.Index found in the same string"
+						}
+					}
+				}
+			}
 			// negative-index normalisation: i + N with -N <= i < 0
 			for _, pair := range [][2]ssa.Value{{bo.X, bo.Y}, {bo.Y, bo.X}} {
 				i, N := pair[0], pair[1]
